@@ -32,9 +32,9 @@ PROPS['C16'] = dict(
 
 PROPS['C10'] = dict(
     title='Whitespace operations and repair are inverse; repair only touches whitespace',
-    groups=[dict(template='c10_whitespace.rs')],
+    groups=[dict(template='c10_whitespace.rs'), dict(template='c10_total.rs')],
     claim='whitespace::operations: for clean `from`/`to` with equal non-whitespace content returns Ok(ops) with one op per character of `from` and rep(from, ops) == to (Err arm unreachable, no index fault, terminates); whitespace::repair: Err iff lengths differ, otherwise output == flat(rep(chars, ops)); lemmas over rep alone: strip(rep(s, ops)) == strip(s) for EVERY ops, all-Keep is the identity; round trip = composition of the two contracts.',
-    not_covered=['operations() on inputs that violate the precondition (not clean / different content): only the stated precondition is verified'],
+    not_covered=['for inputs that violate the precondition (not clean / different content) only totality is verified (Ok or Err, no panic, one operation per character when Ok)'],
     assumptions=["CharString::new/chars split a string into characters whose texts concatenate to it; Character::is_whitespace is a function of the character text; ' ' is whitespace"],
     domain=[],
 )
